@@ -35,6 +35,7 @@ import (
 	"encoding/json"
 	"fmt"
 	"io"
+	"log"
 	"math"
 	"os"
 	"os/exec"
@@ -60,6 +61,7 @@ import (
 func init() {
 	props["C09"] = runC09
 	workers["c09"] = c09Worker
+	workers["c09watch"] = c09WatchWorker
 }
 
 // ---------------------------------------------------------------------------
@@ -534,6 +536,7 @@ func runC09(e *env) {
 	for i, bt := range cases {
 		c09Judge(e, bt, results[i])
 	}
+	c09WatchProbe(e)
 	e.res.Note("runtime oracle: worker subprocesses of this -race binary with GORACE=halt_on_error=1 exitcode=66; GOMAXPROCS per case from {1,2,4,8,16} capped at %d CPUs; Go %s", runtime.NumCPU(), runtime.Version())
 }
 
@@ -847,6 +850,7 @@ func c09Worker(args []string) {
 	}
 	start, _ := strconv.Atoi(args[1])
 	c09InstallGlobals()
+	soyhtml.Logger = log.New(io.Discard, "", 0) // {log} goes through one shared *log.Logger
 	w := bufio.NewWriter(os.Stdout)
 	for i := start; i < len(cs); i++ {
 		fmt.Fprintf(w, "S %d\n", i)
@@ -886,17 +890,28 @@ func c09Render(tofu *soyhtml.Tofu, name string, d data.Map, ij data.Map, msgs so
 	return "ok:" + hex.EncodeToString(buf.Bytes())
 }
 
-func c09JS(f *ast.SoyFileNode, msgs soymsg.Bundle) (res string) {
+// c09ES6 is ONE formatter value shared by every goroutine that generates ES6 modules.
+var c09ES6 = &soyjs.ES6Formatter{}
+
+// JavaScript of one file; the lines are sorted, so that the order of the
+// import block (a Go map iteration: C13's subject, not C09's) cannot differ.
+func c09JS(f *ast.SoyFileNode, msgs soymsg.Bundle, es6 bool) (res string) {
 	var buf bytes.Buffer
 	defer func() {
 		if p := recover(); p != nil {
 			res = "panic"
 		}
 	}()
-	if err := soyjs.Write(&buf, f, soyjs.Options{Messages: msgs}); err != nil {
+	opts := soyjs.Options{Messages: msgs}
+	if es6 {
+		opts.Formatter = c09ES6
+	}
+	if err := soyjs.Write(&buf, f, opts); err != nil {
 		return "err"
 	}
-	return "ok:" + buf.String()
+	lines := strings.Split(buf.String(), "\n")
+	sort.Strings(lines)
+	return "ok:" + strings.Join(lines, "\n")
 }
 
 func c09RunCase(c *c09Case) *c09Result {
@@ -948,12 +963,14 @@ func c09RunCase(c *c09Case) *c09Result {
 		solo[j] = c09Render(soyhtml.NewTofu(fresh), job.Template, datas[j], ij, msgs)
 	}
 	r.Solo = solo
-	jsSolo := make([]string, len(alone.SoyFiles))
+	jsSolo := make([][2]string, len(alone.SoyFiles))
 	for k, f := range alone.SoyFiles {
-		a, b := c09JS(f, msgs), c09JS(f, msgs)
-		if a == b {
-			jsSolo[k] = a
-			r.JSComparable++
+		for v, es6 := range []bool{false, true} {
+			a, b := c09JS(f, msgs, es6), c09JS(f, msgs, es6)
+			if a == b {
+				jsSolo[k][v] = a
+				r.JSComparable++
+			}
 		}
 	}
 
@@ -993,9 +1010,10 @@ func c09RunCase(c *c09Case) *c09Result {
 			n := c.R/8 + 1
 			for k := 0; k < n; k++ {
 				for fi, f := range shared.SoyFiles {
-					got := c09JS(f, msgs)
+					v := (k + slot) % 2 // ES5 and ES6 (one shared formatter value) in turn
+					got := c09JS(f, msgs, v == 1)
 					counts[slot]++
-					if jsSolo[fi] != "" && got != jsSolo[fi] && len(diffs[slot]) == 0 {
+					if jsSolo[fi][v] != "" && got != jsSolo[fi][v] && len(diffs[slot]) == 0 {
 						diffs[slot] = append(diffs[slot], fmt.Sprintf("soyjs.Write of %s: differs from the sequential generation", f.Name))
 					}
 				}
@@ -1055,4 +1073,94 @@ func clip(s string) string {
 		return s[:1200] + "..."
 	}
 	return s
+}
+
+// ---------------------------------------------------------------------------
+// Informational probe, never a violation: Bundle.WatchFiles(true) replaces the
+// registry behind a live Tofu from the watcher goroutine ("*reg = *registry",
+// bundle.go, with the comment "this is not goroutine-safe, but that seems ok
+// for a development aid").  That is outside C09's quantifier (one COMPILED
+// bundle; file watching is excluded from the model boundary, DESIGN.md
+// section 3), but it is the one place where robfig/soy itself writes to a
+// registry that renders are reading, so the evidence records what the race
+// detector says about it.
+
+func c09WatchProbe(e *env) {
+	dir, err := os.MkdirTemp(os.Getenv("VERIF_BUILD"), "c09w-")
+	if err != nil {
+		return
+	}
+	defer os.RemoveAll(dir)
+	cmd := exec.Command(e.self, "worker", "c09watch", dir)
+	cmd.Env = append(os.Environ(), "GORACE=halt_on_error=1 exitcode=66")
+	var stderr, stdout bytes.Buffer
+	cmd.Stderr, cmd.Stdout = &stderr, &stdout
+	if err := cmd.Start(); err != nil {
+		return
+	}
+	timer := time.AfterFunc(20*time.Second, func() { cmd.Process.Kill() })
+	werr := cmd.Wait()
+	timer.Stop()
+	code := 0
+	if ee, ok := werr.(*exec.ExitError); ok {
+		code = ee.ExitCode()
+	}
+	switch {
+	case code == 66 || strings.Contains(stderr.String(), "WARNING: DATA RACE"):
+		e.res.Histogram["watch-probe:race-reported"]++
+		e.res.Note("informational (outside the property: file watching is a development aid, not a compiled bundle): with Bundle.WatchFiles(true) a recompilation races with concurrent renders -- %s", raceSummary(raceReport(stderr.String())))
+	case strings.Contains(stdout.String(), "END"):
+		e.res.Histogram["watch-probe:no-race-observed"]++
+		e.res.Note("informational: WatchFiles probe ran (%s) without a race report", strings.TrimSpace(strings.Replace(stdout.String(), "\n", " ", -1)))
+	default:
+		e.res.Histogram["watch-probe:not-run"]++
+	}
+}
+
+func c09WatchWorker(args []string) {
+	if len(args) < 1 {
+		return
+	}
+	soy.Logger = log.New(io.Discard, "", 0)
+	path := args[0] + "/w.soy"
+	src := func(k int) string {
+		return fmt.Sprintf("{namespace w}\n\n/** @param x */\n{template .t}\nv%d {$x}\n{/template}\n", k)
+	}
+	if os.WriteFile(path, []byte(src(0)), 0o644) != nil {
+		return
+	}
+	tofu, err := soy.NewBundle().WatchFiles(true).AddTemplateFile(path).CompileToTofu()
+	if err != nil {
+		fmt.Println("watch: compile failed:", err)
+		return
+	}
+	stop := make(chan struct{})
+	var wg sync.WaitGroup
+	renders := make([]int, 4)
+	for g := 0; g < 4; g++ {
+		wg.Add(1)
+		go func(g int) {
+			defer wg.Done()
+			for {
+				select {
+				case <-stop:
+					return
+				default:
+				}
+				var buf bytes.Buffer
+				tofu.NewRenderer("w.t").Execute(&buf, data.Map{"x": data.Int(g)})
+				renders[g]++
+			}
+		}(g)
+	}
+	for k := 1; k <= 25; k++ {
+		time.Sleep(8 * time.Millisecond)
+		os.WriteFile(path, []byte(src(k)), 0o644)
+	}
+	time.Sleep(50 * time.Millisecond)
+	close(stop)
+	wg.Wait()
+	var buf bytes.Buffer
+	tofu.NewRenderer("w.t").Execute(&buf, data.Map{"x": data.Int(0)})
+	fmt.Printf("renders %d, last output %q\nEND\n", renders[0]+renders[1]+renders[2]+renders[3], buf.String())
 }
